@@ -278,6 +278,12 @@ pub fn flip(bytes: &[u8], bit: usize) -> Vec<u8> {
 }
 
 /// Decode one hostile input and check totality, allocation and canonicity.
+static WELLFORMED: std::sync::OnceLock<fn(&[u8]) -> bool> = std::sync::OnceLock::new();
+
+/// An independent recogniser of the wire format (if the property has one): whatever a decoder
+/// accepts must be well-formed according to it.
+pub fn set_wellformed(f: fn(&[u8]) -> bool) { let _ = WELLFORMED.set(f); }
+
 pub fn probe<T>(ctx: &mut Ctx, c: &Codec<T>, what: &str, input: &[u8]) -> Option<(T, usize)> {
     ctx.evals += 1;
     set_case(c.name, input);
@@ -299,6 +305,8 @@ pub fn probe<T>(ctx: &mut Ctx, c: &Codec<T>, what: &str, input: &[u8]) -> Option
             ctx.traces += 1;
             if *n > input.len() {
                 ctx.violation("decoder-reports-more-bytes-than-given", c.name, input.len(), w(), json!({"consumed": n}));
+            } else if WELLFORMED.get().map(|f| !f(&input[..*n])).unwrap_or(false) {
+                ctx.violation("ill-formed-input-accepted", c.name, input.len(), w(), json!({"consumed": n, "value": (c.show)(v).chars().take(300).collect::<String>()}));
             } else if c.canonical {
                 let re = (c.enc)(v);
                 if re != input[..*n] {
